@@ -100,6 +100,32 @@ CLAIMED.update({
         ref='4/C16'),
 })
 
+CLAIMED.update({
+    'C04': dict(
+        text='Layer 1, bounded model checking of the block-boundary discovery (utils::instruction_query::find_commands and create_if/while/forin_meta_info_for_line) '
+             'on fully symbolic program structure: an opener followed by symbolic lines, each a symbolic choice among every alias and full-name spelling of every block '
+             'keyword (spellings obtained by executing the real name()/aliases()), well-nestedness assumed by a symbolic stack recogniser; the discovered end and the '
+             'elseif/else lines equal the stack specification.',
+        note='Bounds: quick opener + 8 lines, nesting <= 3; thorough opener + 11 lines. The whole-run layer (branch selection, iteration, per-construct call stacks, '
+             'resumption after end) is NOT built: the claim is the structural half of the property only. ' + TRUST,
+        ref='4/C04 (L1)'),
+    'C07': dict(
+        text='Every panic site (MIR assert terminators, unwrap/expect, slicing, diverging calls) and every loop / recursion bound of the encoded functions is a discharged '
+             'obligation: 64 command run functions with arbitrary argument vectors (0..3 arguments), the parser on arbitrary text, the 21 collection commands on symbolic handle '
+             'tables, substring/range, scope push/pop histories and the condition evaluator.',
+        note='Reduced scope: commands backed by third-party crates (calc, json, semver, hex, base64 decode, case conversion, hash), fs, net, process, env, time, thread, random, '
+             'print/debug and script-implemented commands are not covered; hang-freedom only as unwinding obligations of the encoded loops; range spans <= 4. ' + TRUST,
+        ref='4/C07'),
+    'C10': dict(
+        text='Bounded model checking of the error protocol through the real runner with the real on_error, exit_on_error, get_last_error, get_last_error_line, '
+             'get_last_error_source and trigger_error run functions plus a failing harness command: per program shape all output variables, source lines/files, messages and '
+             'exit_on_error spellings are symbolic; output variable false, last-error triple of the latest error, continuation, and the fatal path (message + failing line and '
+             'source) equal the protocol specification.',
+        note='Bounds: quick 40 program shapes of <= 4 instructions, thorough 170 of <= 5. Top-level programs only (errors inside functions, loops, script-implemented commands '
+             'and included files are not covered); assert_error/set_error not covered. ' + TRUST,
+        ref='4/C10'),
+})
+
 NOT_APPLICABLE = {
     'C17': 'round-trips live in third-party crates (base64, serde_json, java-properties, std fmt/from_str_radix) that are not in the encoded MIR; '
            'modelling them by specification would make decode(encode(x))=x true by construction (DESIGN.md section 5)',
@@ -107,7 +133,7 @@ NOT_APPLICABLE = {
            'checked against itself (DESIGN.md section 5)',
 }
 
-PENDING_REASON = 'check not built yet in this revision (solver-based harness planned, see DESIGN.md section 4); not claimed until it runs'
+PENDING_REASON = 'check not built yet in this revision (solver-based harness designed in DESIGN.md section 4); not claimed until it runs'
 
 
 def main():
